@@ -25,33 +25,33 @@ Open Scope N_scope.
 
 (* jws.deserialize_compact *)
 Theorem c16_jws_deserialize_compact :
-  forall P g reg ka v, prims_ok P -> needs_jws_compact g = true -> jws_reg_wf reg = true ->
+  forall P g reg ka v, prims_ok P -> g_kid_repr g = true -> needs_jws_compact g = true -> jws_reg_wf reg = true ->
     match jws_deserialize_compact g P reg ka v with Err e => allowed_exn e = true | Ok _ => True end.
 Proof. exact jws_deserialize_compact_ok. Qed.
 
 (* jwt.decode with a JWS registry *)
 Theorem c16_jwt_decode_jws :
-  forall P g reg ka v, prims_ok P -> needs_jws_compact g = true -> g_rec_claims g = true -> jws_reg_wf reg = true ->
+  forall P g reg ka v, prims_ok P -> g_kid_repr g = true -> needs_jws_compact g = true -> g_rec_claims g = true -> jws_reg_wf reg = true ->
     match jwt_decode_jws g P reg ka v with Err e => allowed_exn e = true | Ok _ => True end.
 Proof. exact jwt_decode_jws_ok. Qed.
 
 (* rfc7797.deserialize_compact (reg0: the caller's / default registry, reg7: the b64-aware one) *)
 Theorem c16_rfc7797_deserialize_compact :
-  forall P g reg0 reg7 ka v, prims_ok P -> needs_7797_compact g = true ->
+  forall P g reg0 reg7 ka v, prims_ok P -> g_kid_repr g = true -> needs_7797_compact g = true ->
     jws_reg_wf reg0 = true -> jws_reg_wf reg7 = true ->
     match r7797_deserialize_compact g P reg0 reg7 ka v with Err e => allowed_exn e = true | Ok _ => True end.
 Proof. exact r7797_deserialize_compact_ok. Qed.
 
 (* jws.deserialize_json, general and flattened *)
 Theorem c16_jws_deserialize_json :
-  forall P g reg ka value, prims_ok P -> needs_jws_json g = true -> jws_reg_wf reg = true ->
+  forall P g reg ka value, prims_ok P -> g_kid_repr g = true -> needs_jws_json g = true -> jws_reg_wf reg = true ->
     jws_documented_shape value = true ->
     match jws_deserialize_json g P reg ka value with Err e => allowed_exn e = true | Ok _ => True end.
 Proof. exact jws_deserialize_json_ok. Qed.
 
 (* rfc7797.deserialize_json *)
 Theorem c16_rfc7797_deserialize_json :
-  forall P g reg0 reg7 ka value, prims_ok P -> needs_7797_json g = true ->
+  forall P g reg0 reg7 ka value, prims_ok P -> g_kid_repr g = true -> needs_7797_json g = true ->
     jws_reg_wf reg0 = true -> jws_reg_wf reg7 = true -> jws_documented_shape value = true ->
     match r7797_deserialize_json g P reg0 reg7 ka value with Err e => allowed_exn e = true | Ok _ => True end.
 Proof. exact r7797_deserialize_json_ok. Qed.
@@ -60,19 +60,19 @@ Proof. exact r7797_deserialize_json_ok. Qed.
 (* jwe.decrypt_compact ; ka: Key / KeySet / str / other / callable ; sa: no sender key, a Key or a KeySet ;
    reg: with or without the draft algorithms (ECDH-1PU, C20P, XC20P) registered *)
 Theorem c16_jwe_decrypt_compact :
-  forall P g reg ka sa v, prims_ok P -> needs_jwe_compact g = true -> jwe_reg_wf2 reg = true ->
+  forall P g reg ka sa v, prims_ok P -> g_kid_repr g = true -> needs_jwe_compact g = true -> jwe_reg_wf2 reg = true ->
     match jwe_decrypt_compact g P reg ka sa v with Err e => allowed_exn e = true | Ok _ => True end.
 Proof. exact jwe_decrypt_compact_ok. Qed.
 
 (* jwt.decode with a JWE registry *)
 Theorem c16_jwt_decode_jwe :
-  forall P g reg ka v, prims_ok P -> needs_jwe_compact g = true -> g_rec_claims g = true -> jwe_reg_wf2 reg = true ->
+  forall P g reg ka v, prims_ok P -> g_kid_repr g = true -> needs_jwe_compact g = true -> g_rec_claims g = true -> jwe_reg_wf2 reg = true ->
     match jwt_decode_jwe g P reg ka v with Err e => allowed_exn e = true | Ok _ => True end.
 Proof. exact jwt_decode_jwe_ok. Qed.
 
 (* jwe.decrypt_json, general and flattened *)
 Theorem c16_jwe_decrypt_json :
-  forall P g reg ka sa data, prims_ok P -> needs_jwe_json g = true -> jwe_reg_wf2 reg = true ->
+  forall P g reg ka sa data, prims_ok P -> g_kid_repr g = true -> needs_jwe_json g = true -> jwe_reg_wf2 reg = true ->
     jwe_documented_shape data = true ->
     match jwe_decrypt_json g P reg ka sa data with Err e => allowed_exn e = true | Ok _ => True end.
 Proof. exact jwe_decrypt_json_ok. Qed.
@@ -84,7 +84,7 @@ Example c16_all_guards_suffice :
   needs_jws_compact all_guards = true /\ needs_7797_compact all_guards = true /\
   needs_jws_json all_guards = true /\ needs_7797_json all_guards = true /\
   needs_jwe_compact all_guards = true /\ needs_jwe_json all_guards = true /\
-  g_rec_claims all_guards = true.
+  g_rec_claims all_guards = true /\ g_kid_repr all_guards = true.
 Proof. exact all_guards_suffice. Qed.
 
 Example c16_default_registries_wf :
@@ -202,14 +202,24 @@ Theorem c16_1pu_rsa_recipient_partial :
             (tok "e30..AAAAAAAAAAAAAAAA..")) (EJose InvalidKeyTypeError) = true.
 Proof. exact r21_1pu_rsa_recipient. Qed.
 
+(* a kid nested deeper than repr can follow, with a key set (JWE JSON: the key is selected before the
+   header is validated) *)
+Theorem c16_deep_kid_refuted :
+  jwe_documented_shape flat_jwe_deep_kid = true /\
+  is_err (jwe_decrypt_json (all_but 22) (W (D [("alg", T "dir"); ("enc", T "A128GCM")]%string)) default_jwe_reg
+            (AKeySet [k_oct; k_ec]) SNone flat_jwe_deep_kid) ERuntime = true /\
+  is_err (jwe_decrypt_json all_guards (W (D [("alg", T "dir"); ("enc", T "A128GCM")]%string)) default_jwe_reg
+            (AKeySet [k_oct; k_ec]) SNone flat_jwe_deep_kid) (EJose InvalidKeyIdError) = true.
+Proof. exact r22_deep_kid. Qed.
+
 (* callable keys and non-key objects: what guess_key does *)
 Example c16_callable_keys :
-  guess_key (ACall (AKey k_oct)) (Ok (PDict [])) = Ok k_oct /\
-  guess_key (ACall (AText k_oct)) (Ok (PDict [])) = Ok k_oct /\
-  guess_key (ACall AOther) (Ok (PDict [])) = Err EValue /\
-  guess_key (ACall (ACall (AKey k_oct))) (Ok (PDict [])) = Err EValue /\
-  guess_key AOther (Ok (PDict [])) = Err EValue /\
-  guess_key (ACall (AKeySet [])) (Ok (PDict [])) = Err (EJose InvalidKeyIdError).
+  guess_key all_guards (ACall (AKey k_oct)) (Ok (PDict [])) = Ok k_oct /\
+  guess_key all_guards (ACall (AText k_oct)) (Ok (PDict [])) = Ok k_oct /\
+  guess_key all_guards (ACall AOther) (Ok (PDict [])) = Err EValue /\
+  guess_key all_guards (ACall (ACall (AKey k_oct))) (Ok (PDict [])) = Err EValue /\
+  guess_key all_guards AOther (Ok (PDict [])) = Err EValue /\
+  guess_key all_guards (ACall (AKeySet [])) (Ok (PDict [])) = Err (EJose InvalidKeyIdError).
 Proof. exact callable_keys. Qed.
 
 (* every guard is necessary: for each of the guards, the model with all guards except that one admits an
@@ -267,3 +277,4 @@ Print Assumptions c16_1pu_rsa_recipient_partial.
 Print Assumptions c16_callable_keys.
 Print Assumptions c16_guards_are_necessary.
 Print Assumptions c16_contract_classes.
+Print Assumptions c16_deep_kid_refuted.
